@@ -1,24 +1,20 @@
 """T1: signature-hash constants of the working tree -> lean/BtcVerif/Generated/Sighash.lean
 
-Module-level constants are read by importing bitcoin.core.script; the function-local literal HASH_ONE is read
-from the AST of RawSignatureHash (function name, assigned name).  If it cannot be located the dump raises and
-the tie is reported as broken rather than guessed.
+Module-level constants are read by importing bitcoin.core.script.  The historical constant "one" is a
+function-local literal of RawSignatureHash: it is read BEHAVIOURALLY (the digest RawSignatureHash returns for an
+input index that does not exist), so that renaming or hoisting the literal does not break the tie while a
+change of its value does.
 """
-import ast
-import os
 
 
 def _hash_one(repo):
-    tree = ast.parse(open(os.path.join(repo, 'bitcoin', 'core', 'script.py')).read())
-    for node in ast.walk(tree):
-        if isinstance(node, ast.FunctionDef) and node.name == 'RawSignatureHash':
-            for st in ast.walk(node):
-                if isinstance(st, ast.Assign) and any(isinstance(t, ast.Name) and t.id == 'HASH_ONE' for t in st.targets):
-                    val = ast.literal_eval(st.value) if isinstance(st.value, ast.Constant) else \
-                        eval(compile(ast.Expression(st.value), '<HASH_ONE>', 'eval'), {'__builtins__': {}})
-                    if isinstance(val, bytes):
-                        return val
-    raise LookupError('literal HASH_ONE not found in RawSignatureHash')
+    import bitcoin.core as C
+    import bitcoin.core.script as S
+    tx = C.CTransaction([C.CTxIn(C.COutPoint(b'\x11' * 32, 0))], [C.CTxOut(1, S.CScript())])
+    h, err = S.RawSignatureHash(S.CScript(), tx, 1, S.SIGHASH_ALL)
+    if err is None or not isinstance(h, bytes) or len(h) != 32:
+        raise LookupError('RawSignatureHash(script, tx, len(vin), ALL) does not return (32-byte constant, error)')
+    return h
 
 
 def dump(repo):
